@@ -284,7 +284,7 @@ def _run_range(prop, ps, binp, seed, tier, a, b, tmpdir, res, wid, verbose=False
                 done = True
                 with res.lock:
                     for k, v in e.get('counters', {}).items():
-                        res.counters[k] = max(res.counters.get(k, 0), v) if k.startswith('max-') else res.counters.get(k, 0) + v
+                        res.counters[k] = max(res.counters.get(k, 0), v) if k.startswith('max-') else (min(res.counters.get(k, v), v) if k.startswith('min-') else res.counters.get(k, 0) + v)
                     for s in e.get('samples', []):
                         if len(res.samples) < 6:
                             res.samples.append(s)
